@@ -129,8 +129,15 @@ func vRowsEq(a, b []vRow) bool {
 	return symAnd(cs...)
 }
 
+// vIns inserts (k, b, c).  With c == nil the row gets the single column b:
+// protobuf marshals a map with several entries in random order natively, so
+// single-column rows keep node names reproducible in the native replay.
 func vIns(vt *VirtualTable, t int64, k interface{}, b, c interface{}) error {
-	_, err := vt.Insert(vAt(t), map[int]interface{}{0: k, 1: b, 2: c})
+	m := map[int]interface{}{0: k, 1: b}
+	if c != nil {
+		m[2] = c
+	}
+	_, err := vt.Insert(vAt(t), m)
 	return err
 }
 
@@ -161,3 +168,27 @@ type (
 )
 
 func durNew(ns int64) *durationpb.Duration { return durationpb.New(time.Duration(ns)) }
+
+// Unmerged versions: each writer works on its own empty bucket ("fork") so
+// that its open does not merge the others; vMergeForks then copies all their
+// objects into the shared bucket, which is what concurrent writers that
+// started from an empty table leave behind.
+var vForks []*vBucket
+
+func vForkInto(b *vBucket, i int) *vClient {
+	if i == 0 {
+		vForks = nil
+	}
+	f := vNewBucket()
+	vForks = append(vForks, f)
+	return f.client(10 + i)
+}
+
+func vMergeForks(b *vBucket) {
+	for _, f := range vForks {
+		for k, v := range f.objs {
+			b.objs[k] = v
+		}
+	}
+	vForks = nil
+}
